@@ -16,7 +16,7 @@
 
 use super::super::iana::{OptionCode, SecurityAlgorithm};
 use super::super::message_builder::OptBuilder;
-use super::super::wire::{Compose, Composer, ParseError};
+use super::super::wire::{Composer, ParseError};
 use super::{
     BuildDataError, ComposeOptData, LongOptData, Opt, OptData, ParseOptData,
 };
@@ -158,10 +158,9 @@ impl<Variant> Understood<Variant, [u8]> {
 
     /// Checks that a slice contains a correctly encoded value.
     fn check_slice(slice: &[u8]) -> Result<(), ParseError> {
+        // The option data is a sequence of one-octet algorithm codes (RFC
+        // 6975, section 3), so any length up to the maximum is fine.
         LongOptData::check_len(slice.len())?;
-        if !slice.len().is_multiple_of(usize::from(u16::COMPOSE_LEN)) {
-            return Err(ParseError::form_error("invalid understood data"));
-        }
         Ok(())
     }
 }
